@@ -19,6 +19,8 @@
                                                       same translator; `Evenio/Proofs/ArchHandlersGen.lean`)
   bit_set.rs  -> Evenio/Generated/BitSetGen.lean      (`BitSet::{new, clear, grow_to_block, is_disjoint, len, is_empty, insert, remove,
                                                       contains}`, `|=`, `^=`, `div_rem`, same translator; `Evenio/Proofs/BitSetGen.lean`)
+  handler.rs  -> Evenio/Generated/HandlersGen.lean    (`Handlers::{remove, register_event, get_global_list, get, get_by_index, contains}`,
+                                                      same translator; `Evenio/Proofs/HandlersGen.lean`)
   handler.rs  -> Evenio/Generated/HandlerConfigGen.lean (the nine setters of `HandlerConfig`, same translator;
                                                       `Evenio/Proofs/HandlerConfigGen.lean`)
   entity.rs   -> Evenio/Generated/EntityGen.lean      (`ReservedEntities::{reserve, spawn_all, refresh}`, `Entities::add_with`,
@@ -752,6 +754,41 @@ def extract_arch_handlers():
                        ["register_handler", "Archetypes.register_handler", "Archetypes.remove_handler"])
 
 
+def extract_handlers():
+    """handler.rs: `Handlers::{remove, register_event, get_global_list, get, get_by_index, contains}`; the struct is emitted as a
+    Lean structure (`by_insert_order` / `by_type_id` as association lists); the slot-map functions called are the translated
+    ones of SlotMapGen.  `Handlers::add` is outside the subset (a side effect inside `assert!`, and a closure that writes
+    through a raw pointer).  `Evenio/Proofs/HandlersGen.lean` ties them to the registry part of the world model."""
+    return run_rs2lean("src/handler.rs",
+                       ["Handlers", "remove", "register_event", "get_global_list", "get", "get_by_index", "contains",
+                        "--namespace", "Evenio.Gen.Handlers",
+                        "--import", "Evenio.Generated.Rs2LeanPrelude", "--import", "Evenio.Generated.Rs2LeanArch",
+                        "--import", "Evenio.Generated.SlotMapGen", "--open", "Evenio.Rs2Lean", "--struct", "Handlers",
+                        "--type", "SlotMap=Evenio.SlotMap Evenio.HInfo", "--type", "HandlerInfo=Evenio.HInfo",
+                        "--type", "HandlerList=Evenio.HandlerList Evenio.Key", "--type", "TypeIdMap=List (Nat × Evenio.Key)",
+                        "--type", "BTreeMap=List (Nat × Evenio.Key)", "--type", "HandlerInfoPtr=Evenio.Key",
+                        "--type", "HandlerId=Evenio.Key", "--type", "HandlerIdx=Nat", "--type", "GlobalEventIdx=Nat",
+                        "--type", "GlobalEventId=Nat", "--type", "TargetedEventId=Nat", "--type", "TypeId=Nat",
+                        "--type", "EventId=Bool × Nat", "--type", "Key=Evenio.Key",
+                        "--enum", "EventId=Global(GlobalEventId)|Targeted(TargetedEventId)",
+                        "--variant", "EventId::Global=(false, $1)", "--variant", "EventId::Targeted=(true, $1)",
+                        "--prim", "::HandlerId(Key) -> HandlerId=_", "--prim", "::HandlerIdx(u32) -> HandlerIdx=_",
+                        "--prim", "::GlobalEventIdx(u32) -> GlobalEventIdx=_",
+                        "--prim", "GlobalEventId::index(self) -> GlobalEventIdx=_",
+                        "--prim", "SlotMap::remove(&mut self, Key) -> Option<HandlerInfo>=Evenio.Gen.SlotMap.remove",
+                        "--prim", "SlotMap::get(&self, Key) -> Option<&HandlerInfo>=Evenio.Gen.SlotMap.get",
+                        "--prim", "SlotMap::get_by_index(&self, u32) -> Option<(Key, &HandlerInfo)>=Evenio.Gen.SlotMap.get_by_index",
+                        "--prim", "HandlerInfo::received_event(&self) -> EventId=hinfoRecv",
+                        "--prim", "HandlerInfo::ptr(&self) -> HandlerInfoPtr=Evenio.HInfo.key",
+                        "--prim", "HandlerInfo::type_id(&self) -> Option<TypeId>=Evenio.HInfo.tid",
+                        "--prim", "HandlerInfo::order(&self) -> u64=Evenio.HInfo.order",
+                        "--prim", "HandlerList::remove(&mut self, HandlerInfoPtr) -> bool=Evenio.Gen.HandlerList.remove",
+                        "--prim", "TypeIdMap::remove(&mut self, &TypeId) -> Option<HandlerInfoPtr>=assocRemove",
+                        "--prim", "BTreeMap::remove(&mut self, &u64) -> Option<HandlerInfoPtr>=assocRemove",
+                        "--prim", "Key::index(self) -> u32=Evenio.Key.idx"],
+                       ["remove", "register_event", "get_global_list", "get", "get_by_index", "contains"])
+
+
 def main():
     status_path = None
     if "--status" in sys.argv:
@@ -764,7 +801,8 @@ def main():
                      ("HandlerConfigGen", extract_handler_config),
                      ("AccessGen", extract_access_funcs),
                      ("BitSetGen", extract_bit_set),
-                     ("ArchHandlersGen", extract_arch_handlers)]:
+                     ("ArchHandlersGen", extract_arch_handlers),
+                     ("HandlersGen", extract_handlers)]:
         target = os.path.join(OUT, name + ".lean")
         fallback = os.path.join(OUT, name + ".lean.fallback")
         old = open(target).read() if os.path.exists(target) else None
